@@ -14,6 +14,7 @@ package main
 
 import (
 	"bytes"
+	"flag"
 	"fmt"
 	"os"
 	"path/filepath"
@@ -228,6 +229,7 @@ func errs(e error) string {
 }
 
 func main() {
+	flag.Set("logtostderr", "true") // glog of the code under test: no files in /tmp
 	o := tr.ParseFlags()
 	out := tr.NewWriter(o.Out)
 	defer out.Close()
